@@ -35,6 +35,11 @@ class Scratch:
 
     def replace(self, rel: str, old: str, new: str, count: int = 1) -> bool:
         s = self.read(rel)
+        if count == -1:                      # first occurrence
+            if old not in s:
+                return False
+            self.write(rel, s.replace(old, new, 1))
+            return True
         if s.count(old) != count:
             return False
         self.write(rel, s.replace(old, new))
